@@ -809,7 +809,9 @@ func (c *Ctx) c01Length() {
 // local and no closure creation capturing it is reachable from the first load.
 func sameStableCell(fn *ssa.Function, lc *linCtx) bool {
 	var loads []*ssa.UnOp
+	var vals []ssa.Value
 	add := func(v ssa.Value) bool {
+		vals = append(vals, v)
 		u, ok := v.(*ssa.UnOp)
 		if !ok || u.Op != token.MUL {
 			return false
@@ -842,6 +844,15 @@ func sameStableCell(fn *ssa.Function, lc *linCtx) bool {
 			}
 		}
 	})
+	// one and the same register everywhere (no cell involved)
+	if len(vals) >= 2 && len(loads) == 0 {
+		for _, v := range vals {
+			if v != vals[0] {
+				return false
+			}
+		}
+		return true
+	}
 	if !good || len(loads) < 2 {
 		return false
 	}
